@@ -14,6 +14,7 @@ static int TRACK;
  * return of lha_input_stream_free */
 static long BAL;
 static int BTRACK, LEAKS;
+static int KEEP_LIVE;          /* the live-heap counter runs on over several archives handled one after another */
 void *__real_malloc(size_t n);
 void *__real_calloc(size_t a, size_t b);
 void *__real_realloc(void *p, size_t n);
@@ -140,7 +141,7 @@ static int walk(int kind, const uint8_t *a, size_t n, int mode, size_t piece, ob
 	int over_budget = 0;
 	static uint8_t buf[8192];
 	memset(o, 0, sizeof *o);
-	LIVE = 0; PEAK = 0;
+	if (!KEEP_LIVE) { LIVE = 0; PEAK = 0; }
 	F_READS = F_ZERO = F_SEEKS = 0;
 	BAL = 0; BTRACK = LEAKS;
 	if (!src_open(&s, kind, a, n)) { BTRACK = 0; printf("HARNESS cannot open source kind %d\n", kind); return 0; }
@@ -537,23 +538,55 @@ static void space_extreme(void)
 		if (o.hang) vf_viol("c13-zero-progress-loop", "%s: header-less input", KIND_NAME[kind]);
 		vf_nontrivial(vf_mix(n, kind));
 	}
+	/* many archives one after another in one process, each ending inside a level-3 header that declares 1 MiB (or inside a
+	 * member): the bound is on the heap in use, whatever was handled before */
+	for (kind = 0; kind < K_COUNT; ++kind)
+	for (mode = 0; mode < 2; ++mode) {
+		int rep;
+		size_t n, total = 0;
+		obs_t o;
+		ref_hdr f;
+		if (!vf_case("32 archives in a row, each cut inside %s, %s", mode ? "the data of a -lh7- member" : "a level-3 header declaring 1 MiB", KIND_NAME[kind])) continue;
+		memset(&f, 0, sizeof f);
+		f.level = mode ? 2 : 3; memcpy(f.method, mode ? "-lh7-" : "-lh0-", 5); f.name = f.area = (const uint8_t *) "";
+		f.ext[0].type = 1; f.ext[0].data = (const uint8_t *) "x"; f.ext[0].len = 1; f.next = 1;
+		f.packed = mode ? 1000 : 0; f.size = mode ? 100000 : 0;
+		n = ref_hdr_encode(&f, buf, sizeof buf);
+		if (!mode) { uint32_t hl = (1u << 20) - 16; buf[24] = (uint8_t) hl; buf[25] = (uint8_t) (hl >> 8); buf[26] = (uint8_t) (hl >> 16); buf[27] = (uint8_t) (hl >> 24); }
+		memset(buf + n, 0x5A, 40);
+		LIVE = 0; PEAK = 0; KEEP_LIVE = 1;
+		for (rep = 0; rep < 32; ++rep) { walk(kind, buf, n + 40, mode ? 1 : 0, 4096, &o); total += n + 40; }
+		KEEP_LIVE = 0;
+		if (PEAK > (8u << 20) + 2 * total) vf_viol("c13-heap", "%s: peak live heap %zu after 32 archives of %zu bytes each", KIND_NAME[kind], PEAK, n + 40);
+		vf_outcome(vf_mix(PEAK / 65536, kind));
+		vf_nontrivial(vf_mix(kind, 4242 + mode));
+	}
 	/* decoders fed endless / self-referential input through the archive layer: declared length up to 4 MiB, 2 bytes of data */
 	{
 		int mi;
-		static const uint32_t decl[3] = { 65536, 1u << 20, 4u << 20 };
+		static const uint32_t decl[6] = { 65536, 1u << 20, 4u << 20, 0, 1, 100 };
+		static uint8_t vs[4096], vp[4096];
 		for (mi = 0; mi < 14; ++mi)
-		for (k = 0; k < 3; ++k)
-		for (mode = 0; mode < 3; ++mode) {
+		for (k = 0; k < 6; ++k)
+		for (mode = 0; mode < 5; ++mode) {
 			ref_hdr f;
-			size_t n, dl = mode == 0 ? 0 : 2;
+			size_t n, dl = mode == 0 ? 0 : mode == 3 ? 1 : 2, vl = 0;
 			obs_t o;
-			if (!vf_case("%s member declaring %u bytes with %zu bytes of %s data", ALL_METHODS[mi], decl[k], dl, mode == 2 ? "0xFF" : "zero")) continue;
+			/* mode 3: the single byte 0x04; mode 4: a valid stream of the method that holds 300 bytes */
+			if (mode == 4) { dl = make_stream(ALL_METHODS[mi], 300, 9, vs, sizeof vs, vp, sizeof vp, &vl); if (!dl) continue; }
+			if (mode >= 3 && k < 3) continue;
+			if (!vf_case("%s member declaring %u bytes with %zu bytes of %s data", ALL_METHODS[mi], decl[k], dl, mode == 2 ? "0xFF" : mode == 3 ? "0x04" : mode == 4 ? "valid (300 bytes encoded)" : "zero")) continue;
 			memset(&f, 0, sizeof f);
 			f.level = 2; memcpy(f.method, ALL_METHODS[mi], 5); f.name = f.area = (const uint8_t *) "";
 			f.ext[0].type = 1; f.ext[0].data = (const uint8_t *) "endless"; f.ext[0].len = 7; f.next = 1;
 			f.packed = (uint32_t) dl; f.size = decl[k];
 			n = ref_hdr_encode(&f, buf, sizeof buf);
-			memset(buf + n, mode == 2 ? 0xFF : 0, dl);
+			if (mode == 4) memcpy(buf + n, vs, dl); else memset(buf + n, mode == 2 ? 0xFF : mode == 3 ? 0x04 : 0, dl);
+			if (k >= 3) {
+				/* a small declared length, zero included, is a limit like any other: the test walk must return too */
+				walk(K_SKIPFAIL, buf, n + dl, 2, 4096, &o);
+				if (o.hang) vf_viol("c13-zero-progress-loop", "%s: test of a member declaring %u bytes", ALL_METHODS[mi], decl[k]);
+			}
 			walk(K_NOSKIP, buf, n + dl, 1, 4096, &o);
 			if (o.hang) vf_viol("c13-zero-progress-loop", "%s: decoder on exhausted input", ALL_METHODS[mi]);
 			if (o.body_len[0] > decl[k]) vf_viol("c13-output-exceeds-declared", "%s produced %zu > %u", ALL_METHODS[mi], o.body_len[0], decl[k]);
